@@ -174,6 +174,12 @@ class SelectMixin:
             return self._map1(v, CallAbs)
         return super().b_numpy_abs(args, kw, st, n)
 
+    def b_abs(self, args, kw, st, n):
+        # the builtin abs() on an array is numpy's elementwise absolute value (ndarray.__abs__)
+        if isinstance(args[0], (Gath, SArr, LArr)):
+            return self.b_numpy_abs(args, kw, st, n)
+        return super().b_abs(args, kw, st, n)
+
     def b_len(self, args, kw, st, n):
         if isinstance(args[0], Gath):
             return Count(args[0])
